@@ -17,6 +17,9 @@ impl Shared {
 fn static_mutex() -> Reference<Shared> { static_mutex_reference!(Shared, Shared::new()) }
 fn static_rwlock() -> Reference<Shared> { static_rw_lock_reference!(Shared, Shared::new()) }
 fn work(r: Reference<Shared>, tid: u8, iters: u64) -> u64 {
+    work_ref(&r, tid, iters)
+}
+fn work_ref(r: &Reference<Shared>, tid: u8, iters: u64) -> u64 {
     let mut reads_ok = 0;
     for i in 0..iters {
         {
@@ -75,5 +78,25 @@ fn main() {
     // clones of one Reference handed... References are !Send by design (raw-pointer variants), so each
     // thread builds its own; clones are exercised within each thread:
     run_variant("ArcMutex+clone", threads, iters, &{ let am = am.clone(); move || Reference::from_arc_mutex(am.clone()).clone() }, threads * iters);
+    // one long-lived owner (the only strong handle besides transient ones) plus threads that build a fresh Reference
+    // from Weak::upgrade() for every increment: a "sole owner" shortcut that skips the lock when the strong count
+    // is 1 would race with a thread that is just upgrading
+    {
+        let owner = Arc::new(Mutex::new(Shared::new()));
+        let weak = Arc::downgrade(&owner);
+        let owner_ref = Reference::from_arc_mutex(owner);
+        let results: Vec<u64> = thread::scope(|s| {
+            let hs: Vec<_> = (1..threads).map(|t| { let w = weak.clone(); s.spawn(move || {
+                let mut ok = 0u64;
+                for i in 0..iters { let a = match w.upgrade() { Some(a) => a, None => return u64::MAX }; ok += work(Reference::from_arc_mutex(a), t as u8, 1); if i % 16 == 0 { thread::yield_now(); } }
+                ok
+            }) }).collect();
+            let mine = work_ref(&owner_ref, 0, iters); // the single strong handle itself, not a clone
+            let mut v: Vec<u64> = hs.into_iter().map(|h| h.join().unwrap_or(u64::MAX)).collect();
+            v.push(mine);
+            v
+        });
+        check("ArcMutex+Weak::upgrade", &owner_ref, threads, iters, 0, &results);
+    }
     println!("CONC-DONE");
 }
